@@ -35,6 +35,8 @@ def corpus_cases():
 def run(chk):
     chk.rule = RULE
     chk.prove()
+    import ext_static
+    ext_static.run_streams(chk, chk.tier == "quick")
     R = asm_streams.Runner(("debug",))
     quick = chk.tier == "quick"
     rng = chk.rng.fork("c08")
@@ -156,6 +158,9 @@ def run(chk):
 def replay(chk, rep):
     R = asm_streams.Runner(("debug",))
     r = rep.get("replay", rep)
+    if r.get("kind") in ("static", "static_switch"):
+        import ext_static
+        return ext_static.replay(chk, rep)
     if r.get("kind") == "match":
         out = vlib.run_lines([R.bins["debug"] + "/matcher"], ["X %s %s" % (vlib.hx(r["rules"]), vlib.hx(r["line"]))], shards=1)
         print("rules:\n%s\nline: %r\nimplementation now (no index TAB index): %s\nrecorded: %s\nmodel: %s" % (r["rules"], r["line"], out[0], r.get("impl"), r.get("model")))
